@@ -59,6 +59,11 @@ func (self *Core) runInstruction(instruction compiler.Instruction) *value.VmInte
 		// TODO: analyze where this instruction is generated and if it could break stuff
 		// TODO: does this break? when copying the pointer?
 		self.push(self.getStackTop())
+	case compiler.Opcode_Detach:
+		// An operand is a value once it has been evaluated: later writes to the element / field it was read from
+		// (by the operands which follow) must not reach it. Lists and objects stay shared, only the cell is new.
+		v := *self.pop()
+		self.push(&v)
 	case compiler.Opcode_Spawn:
 		i := instruction.(compiler.OneStringInstruction)
 
